@@ -200,6 +200,25 @@ func checkC17(c *Ctx, e *Env) {
 						}
 					}
 				}
+				// Q7: a paginated scan ends only when the iterator says so. The ORM builds the PageResponse
+				// (next key, total) when Next() returns false; a loop left earlier — a cap on the number of
+				// collected rows, a break on some condition — returns a truncated page with no next key
+				if o.Kind == exitReturn && hasSpec && anyPaginated(specs) {
+					listed, exhausted := false, false
+					for i := range st.events {
+						if ev := &st.events[i]; ev.Kind == "read" && ev.OpKind == "list" {
+							listed = true
+						}
+					}
+					for _, f := range st.facts {
+						if strings.HasPrefix(f, "-IterNext(") {
+							exhausted = true
+						}
+					}
+					if listed && !exhausted {
+						bad = append(bad, "Q7: a successful return is reachable without the iterator's Next() having returned false: the scan loop can be left early (row cap, break), and the ORM only produces the page response — next key and total — at exhaustion, so the caller gets a truncated page it cannot continue")
+					}
+				}
 				// Q5 on iterations of scan loops
 				if o.Kind == exitLoopback {
 					hasValue, appends := false, 0
